@@ -27,10 +27,12 @@ func (c19) Assumptions() []string {
 		"totality is decided by recover() plus the worker's wall-clock watchdog (the parser has no interface to count steps on; its loops are bounded by the input length)",
 	}
 }
-func (c19) fuzzCount(tier string) int     { return tierN(tier, 3000, 1500000) } // x64 strings
-func (c19) faithCount(tier string) int    { return tierN(tier, 20000, 5000000) }
-func (c19) e2eCount(tier string) int      { return tierN(tier, 600, 200000) }
-func (p c19) NumCases(tier string) int    { return p.fuzzCount(tier) + p.faithCount(tier) + p.e2eCount(tier) }
+func (c19) fuzzCount(tier string) int  { return tierN(tier, 3000, 1500000) } // x64 strings
+func (c19) faithCount(tier string) int { return tierN(tier, 20000, 5000000) }
+func (c19) e2eCount(tier string) int   { return tierN(tier, 600, 200000) }
+func (p c19) NumCases(tier string) int {
+	return p.fuzzCount(tier) + p.faithCount(tier) + p.e2eCount(tier)
+}
 func (c19) MinNontrivial(tier string) int { return tierN(tier, 2000, 20000) }
 
 var dummyField = func() *component_definition.Field {
